@@ -64,6 +64,15 @@ class C15:
                 seq = [(rng.choice([c for c in pool_c if c < 400]), t) for _, t in seq]
             cases.append("agg " + " ".join("%d %s" % (c, S(t)) for c, t in seq))
             dist.add("agg:random-len-%d" % n)
+        # aggregates as values: one that held an old value (empty, positive, negative) is assigned / constructed from a new one
+        vals = {"empty": [], "pos": [(331, "331 ok"), (230, "230 in")], "neg": [(331, "331 ok"), (530, "530 no")], "one-pos": [(200, "")],
+                "one-neg": [(550, "x")], "codeless": [(65535, "")]}
+        for how in ("copy=", "move=", "copy", "move", "list="):
+            for on, ov in vals.items():
+                for nn, nv in vals.items():
+                    ser = lambda v: " ".join("%d %s" % (c, S(t)) for c, t in v)
+                    cases.append(("aggval %s %s | %s" % (how, ser(ov), ser(nv))).replace("  ", " "))
+                    dist.add("aggval:%s" % how)
         # long aggregates: counters, flags and sizes of every width (255 / 256 / 257, 65535 / 65536 / 65537 members), all
         # negative, all without a code, alternating, one non-positive member at the very end / the very beginning
         lens = [255, 256, 257, 511, 512, 513, 1024] + ([65535, 65536, 65537] if tier == "thorough" else [])
